@@ -485,3 +485,75 @@ def build_precommit(pid, tier):
                        bounds='%d sector(s); CUTS: reward/power queries, verify_deals, pre_commit_deposit_for_power (arbitrary amount), allocate_sector_numbers, put_precommitted_sectors (captured), add_pre_commit_clean_ups; sends succeed' % n,
                        max_paths=400000, wall_s=400 if tier == 'quick' else 1500)
             for n in ([1] if tier == 'quick' else [1, 2])]
+
+
+# ---- declare_faults_recovered: blocked by fee debt until it is repaid (C15); credits no power (C02) -----------------------
+# CUTS (declared): DeadlineSectorMap::add / check (parameter bookkeeping) -> Ok with one (deadline, partition) entry,
+# State::load_deadlines / save_deadlines, Sectors::load, Deadlines::load_deadline / update_deadline,
+# Deadline::declare_faults_recovered -> Ok, validate_fr_declaration_deadline -> arbitrary verdict.
+
+def run_recover(nvest=0):
+    def run(E):
+        rt, rtref = new_rt(E)
+        pre = mk_miner_state(E, nvest)
+        rt.state = pre['st']
+        E.ctx.assume(rt.balance >= pre['pcd'] + pre['lf'] + pre['ip'])
+        E.ctx.assume(z3.And(rt.epoch >= 0, rt.epoch < 2**40))
+        E.ctx.assume(z3.Not(C13.bz(C13.view(E, pre['info'])['pw_some'])))
+        env = E.ctx.env
+        env['balance0'] = rt.balance
+        lz = lambda nm, ty: (lambda E2, c: ok(LazyV(nm, ty), c.dest_ty))
+        okc = lambda E2, c: ok(UNIT, c.dest_ty)
+        dl = E.materialize('u64', 'decl.deadline')
+        E.ctx.assume(dl.v < 48)
+
+        def dsm_new(E2, c):
+            d = models_std.DictM('BTreeMap')
+            return StructV('deadline_state::DeadlineSectorMap', {0: ObjV(d)})
+        E.cuts['DeadlineSectorMap::add'] = okc
+        E.cuts['DeadlineSectorMap::check'] = okc
+        E.cuts['DeadlineSectorMap::iter'] = lambda E2, c: ObjV(models_core.ListIter([StructV('tuple', {0: dl, 1: RefV(Cell(LazyV('partition_map', 'deadline_state::PartitionSectorMap'), 'pm'), (), True)})]))
+        E.cuts['State::load_deadlines'] = lz('deadlines', 'deadlines::Deadlines')
+        E.cuts['State::save_deadlines'] = okc
+        E.cuts['Sectors::load'] = lz('sectors', 'sectors::Sectors')
+        E.cuts['Deadlines::load_deadline'] = lz('dl', 'deadline_state::Deadline')
+        E.cuts['Deadlines::update_deadline'] = okc
+        E.cuts['Deadline::declare_faults_recovered'] = okc
+        E.cuts['validate_fr_declaration_deadline'] = lambda E2, c: (ok(UNIT, c.dest_ty) if E2.ctx.branch(z3.Bool('declaration_in_time')) else err(OpaqueV('anyhow'), c.dest_ty))
+        from .miner_money import install_bib_cut
+        install_bib_cut(E)
+        rt.send_hook = lambda E2, rt2, rec, nm: ('ok', None)
+        decl = StructV('types::RecoveryDeclaration', {0: dl, 1: E.materialize('u64', 'decl.partition'), 2: models_fvm.BitFieldV('decl.sectors')})
+        params = StructV('types::DeclareFaultsRecoveredParams', {0: VecV([decl], 'Vec<RecoveryDeclaration>')})
+        fn = find_fn(E, MINER, 'declare_faults_recovered', 'src/lib.rs')
+        return E.run_function(fn, [rtref, params]), rt
+    return run
+
+
+def props_recover(E, res):
+    from .miner_money import bib_prop
+    env = res.ctx.env
+    rt, pre = env['rt'], env['pre']
+    ctx = res.ctx
+    if res.kind != 'return':
+        return [tagged('ALL', 'no panic (%s)' % str(res.info)[:60], False)]
+    led = ledgers(E, rt.state) if rt.state is not None else None
+    if is_err(res.value):
+        return [bib_prop(res), tagged('C15', 'a refused recovery declaration commits nothing', rt.commits == 0)]
+    burns, pledge, others = classify_sends(rt, ctx)
+    burnt = sum(s.value for s in burns) if burns else 0
+    unlocked = env['balance0'] - pre['lf'] - pre['pcd'] - pre['ip']
+    P = [tagged('C15', 'a recovery declaration goes through only with the fee debt repaid in full and burnt (fee debt blocks recovery declarations)',
+                z3.And(led['fd'] == 0, burnt == pre['fd'], unlocked >= pre['fd'])),
+         tagged('C02', 'declaring sectors recovered credits no power (power returns only with a proof)', all(implied(ctx, b_not(b_and(s.to.key == POWER, zv(s.method) == UPDATE_CLAIMED_POWER))) for s in rt.sends)),
+         tagged('C03', 'the ledgers other than the fee debt are untouched', z3.And(led['ip'] == pre['ip'], led['pcd'] == pre['pcd'], led['lf'] == pre['lf'])),
+         tagged('C01', 'miner stays solvent', solvency(rt, led))]
+    return P
+
+
+def build_recover(pid, tier):
+    wrap = lambda f: (lambda E, res: for_property(pid, f(E, res)))
+    return [Obligation('miner.declare_faults_recovered', run_recover(0), wrap(props_recover),
+                       descr='recovery declaration: only with the fee debt repaid in full (burnt); no power credited; other ledgers untouched',
+                       bounds='one declaration; CUTS: parameter map, deadline / sector loading, Deadline::declare_faults_recovered, declaration-window check (arbitrary verdict); sends succeed',
+                       max_paths=100000, wall_s=300)]
